@@ -622,6 +622,40 @@ fn m22_two_writers_no_credit() {
     report("m22_two_writers_no_credit");
 }
 
+/// 24. the application drops a stream on one thread while the connection task, on another thread,
+/// takes the drop notification: when the notification can be seen, the dropped stream has already
+/// let go of its handle on the shared `finish_sent` flag. The task tells "the stream this slot
+/// belongs to is gone" from "a stale notification of an older stream on a re-used id" by that count.
+#[test]
+fn m24_drop_notification_vs_handle_release() {
+    model(|| {
+        let p = parts(1);
+        let Parts {
+            stream,
+            data,
+            _dropped_rx: mut dropped_rx,
+            ..
+        } = p;
+        let t = thread::spawn(move || drop(stream));
+        let mut seen = false;
+        for _ in 0..3 {
+            if dropped_rx.try_recv().is_ok() {
+                seen = true;
+                break;
+            }
+            thread::yield_now();
+        }
+        if seen {
+            let holders = Arc::strong_count(&data.finish_sent);
+            assert_eq!(holders, 1, "drop notification visible while the dropped stream still holds its flag ({holders} holders)");
+        }
+        t.join().expect("dropper");
+        outcome(format!("seen={seen}"));
+        drop(data);
+    });
+    report("m24_drop_notification_vs_handle_release");
+}
+
 /// 18. a writer parked on credit ∥ a local shutdown of the same stream from another thread (the `&self`
 /// API): closing the write side must wake the writer, which then fails
 #[test]
